@@ -150,7 +150,7 @@ func (txnPoliciesAccessor *TxnPoliciesAccessor) UpdatePoliciesData(
 
 	shouldUnmanageGlobal := previousHAProxyEndpoints.ManageAll && !newHAProxyEndpoints.ManageAll
 
-	haproxyEndpointsToRemove, _ := lo.Difference(
+	haproxyEndpointsToRemove := EndpointsToUnmanage(
 		previousHAProxyEndpoints.ManagedEndpoints,
 		newHAProxyEndpoints.ManagedEndpoints,
 	)
@@ -237,6 +237,10 @@ func scheduleUnmanageHAProxyGlobal() {
 }
 
 func unmanageGlobalVoided() {
+	if isAllManagedNow() {
+		log.Debug().Msg("Global is managed again, nothing to unmanage")
+		return
+	}
 	err := unmanageGlobal()
 	if err != nil {
 		log.Error().Err(err).Msg("Failed to unmanage global")
@@ -245,6 +249,7 @@ func unmanageGlobalVoided() {
 }
 
 func unmanageHAProxyEndpointsVoided(haproxyEndpointsToRemove []*HAProxyEndpointData) {
+	haproxyEndpointsToRemove = notNeededAnymore(haproxyEndpointsToRemove)
 	err := unmanageHAProxyEndpoints(haproxyEndpointsToRemove)
 	if err != nil {
 		log.Error().Err(err).Msgf("Failed to unmanage HAProxy endpoints")
